@@ -493,8 +493,12 @@ def main(argv=None):
         print(f"   subcheck={v['subcheck']} assert={v['name']} kind={v['kind']} class={v['cls']} ({occ} occurrences, {nb} classes)")
         print(f"   {v['detail']}")
     if collect:
+        os.makedirs(os.path.join(out_dir, "buckets"), exist_ok=True)
         for b, info in new_buckets:
-            print(f"   BUCKET {b} x{info['count']}: {info['violation']['detail'][:200]}")
+            bf = os.path.join(out_dir, "buckets", f"{zlib.crc32(b.encode()):08x}.json")
+            with open(bf, "w") as f:
+                json.dump(dict(property=pid, subcheck=info["violation"]["subcheck"], violation=info["violation"], case=info["case"]), f, default=str)
+            print(f"   BUCKET {b} x{info['count']} [{os.path.basename(bf)}]: {info['violation']['detail'][:200]}")
     if violation_lines:
         return 1
     if fatal or n_harness:
